@@ -737,7 +737,7 @@ async fn run_case<B: Backend>(ops: &[Op]) -> Result<String, SchedMismatch> {
 }
 
 fn exec(case: &str) -> String {
-    exec_tries(case, std::env::var("BUFLOG_TRIES").ok().and_then(|s| s.parse().ok()).unwrap_or(2000))
+    exec_tries(case, std::env::var("BUFLOG_TRIES").ok().and_then(|s| s.parse().ok()).unwrap_or(30000))
 }
 
 fn exec_tries(case: &str, tries: usize) -> String {
@@ -825,11 +825,22 @@ fn show_es(es: &[(u64, u64, u64)]) -> String {
     es.iter().map(|e| format!("{}.{}.{}", e.0, e.1, e.2)).collect::<Vec<_>>().join(",")
 }
 
+thread_local! {
+    /// how many more operations of the case being generated may carry a scheduling annotation: every annotated
+    /// operation is a point where the real loop's random arm choice has to match, and all of them have to match in
+    /// one run of the case, so their number is kept small
+    static RACE_BUDGET: std::cell::Cell<u32> = const { std::cell::Cell::new(0) };
+}
+
 /// scheduling annotation `(prefix, suffix)` of an op name: `+` = clock advanced first, `@xyz` = arm order
 fn sched(r: &mut Rng, racy: bool) -> (&'static str, &'static str) {
-    if !racy {
+    if !racy || RACE_BUDGET.with(|b| b.get()) == 0 {
         return ("", "");
     }
+    if r.chance(1, 2) {
+        return ("", "");
+    }
+    RACE_BUDGET.with(|b| b.set(b.get() - 1));
     let pre = if r.chance(1, 3) { "+" } else { "" };
     let suf = match r.below(8) {
         0 => "@nct",
@@ -913,9 +924,12 @@ fn structured_op(r: &mut Rng, sh: &mut Shadow, racy: bool, file: bool) -> String
         let pt = if start == 0 { sh.anchor.1 } else { sh.log[start - 1].1 };
         let m = r.below(back) as usize;
         let mut es: Vec<_> = sh.log[start..start + m].to_vec();
-        let t = (sh.tcur() + 1).min(6);
-        let k = r.range(1, 3);
         let from = sh.log[start].0 + m as u64;
+        // usually a higher term; sometimes the follower's current last term at an index that still carries an
+        // older one (the case the `first.index >= last_term_start` test of the fast path exists for)
+        let old_t = sh.term_at(from).unwrap_or(0);
+        let t = if old_t != 0 && old_t < sh.tcur() && r.chance(1, 3) { sh.tcur() } else { (sh.tcur() + 1).min(6) };
+        let k = r.range(1, 3);
         let more = sh.run(from, k, t);
         es.extend_from_slice(&more);
         if pi == 0 && pt == 0 {
@@ -991,6 +1005,7 @@ fn structured_op(r: &mut Rng, sh: &mut Shadow, racy: bool, file: bool) -> String
 }
 
 fn structured_case(r: &mut Rng, racy: bool, file: bool) -> String {
+    RACE_BUDGET.with(|b| b.set(2));
     let mut sh = Shadow::new();
     let len = r.range(3, 12);
     let mut ops = Vec::new();
@@ -1021,18 +1036,27 @@ fn malformed_entries(r: &mut Rng) -> Vec<(u64, u64, u64)> {
 }
 
 fn malformed_case(r: &mut Rng) -> String {
+    RACE_BUDGET.with(|b| b.set(2));
     let len = r.range(2, 9);
     let mut ops = Vec::new();
+    let mut seen: Vec<(u64, u64)> = Vec::new();
     for _ in 0..len {
         let op = match r.below(14) {
-            0 | 1 | 2 => format!("a:{}", show_es(&malformed_entries(r))),
+            0 | 1 | 2 => {
+                let es = malformed_entries(r);
+                seen.extend(es.iter().map(|e| (e.0, e.1)));
+                format!("a:{}", show_es(&es))
+            }
             3 | 4 | 5 | 6 => {
                 let mut es = malformed_entries(r);
                 if r.chance(1, 2) {
                     es.sort();
                 }
                 let (a, b) = sched(r, true);
-                format!("{}f{}:{}.{}:{}", a, b, r.below(9), r.below(4), show_es(&es))
+                // prev: often one of the entries handed to the log earlier in this case
+                let (pi, pt) = if !seen.is_empty() && r.chance(3, 5) { *r.pick(&seen) } else { (r.below(9), r.below(4)) };
+                seen.extend(es.iter().map(|e| (e.0, e.1)));
+                format!("{}f{}:{}.{}:{}", a, b, pi, pt, show_es(&es))
             }
             7 => format!("p:{}.{}", r.below(10), r.below(4)),
             8 => "r".into(),
